@@ -5,6 +5,7 @@
 import HealSparse.Lemmas.Core
 import HealSparse.Model.FitsIO
 import HealSparse.Lemmas.Coverage
+import HealSparse.Lemmas.WFWorld
 namespace HS
 namespace C04
 
@@ -68,6 +69,76 @@ theorem file_layout (c : Cfg) (vc : VCfg V) (s : State V) (h : Inv c vc s) :
 /-- non-vacuity: a concrete non-trivial state (two blocks allocated out of order) satisfies `Inv`. -/
 example : Inv (V := Nat) ⟨3, 1⟩ ⟨0, fun x => x != 0⟩
     ⟨#[4, -2, -2], #[0, 0, 7, 0, 0, 9]⟩ := by decide
+
+/-! ### the global invariant: every protocol history
+
+`runLines lines` is the world the driver reaches from the empty world by the protocol history
+`lines` (any list of strings: unknown or malformed lines answer `bad-op` and change nothing).
+The proof (HealSparse/Lemmas/WFWorld.lean) is an induction over the history with the stronger
+invariant `World.Good` — owning entries well formed, well typed (`KindOk`) and sentinel
+compatible (`SentOK`), view descriptors of non-record kind, files well formed with a well-typed
+recovered kind — preserved by each of the 51 operations of Model/Dispatch.lean. -/
+
+/-- every map object that owns its storage, and every file, in the world reached by ANY protocol history obeys the published layout -/
+theorem reachable_wf (lines : List String) : (runLines lines).WF :=
+  (Good.runLines lines).wf
+
+/-- what a protocol `state`/read sees: every map a history can look up (views included, resolved against their parents) obeys the layout -/
+theorem reachable_get_wf (lines : List String) (n : String) (m : MapObj)
+    (h : (runLines lines).get? n = some m) : m.WF :=
+  ((Good.runLines lines).get h).1
+
+/-- the executable check agrees: `checkInv` is true of every reachable owning map -/
+theorem reachable_checkInv (lines : List String) :
+    ∀ e ∈ (runLines lines).pool, e.2.view = none → checkInv e.2.c e.2.vc e.2.st = true := by
+  intro e he hv
+  exact decide_eq_true ((reachable_wf lines).1 e he hv).2
+
+/-- … and of every map a history can look up -/
+theorem reachable_get_checkInv (lines : List String) (n : String) (m : MapObj)
+    (h : (runLines lines).get? n = some m) : checkInv m.c m.vc m.st = true :=
+  decide_eq_true (reachable_get_wf lines n m h).2
+
+/-- the full invariant: what is looked up is also well typed and sentinel compatible, so the
+    hypotheses of every API-level theorem of Lemmas/WFApi, WFRes, WFFiles are met along any history -/
+theorem reachable_get_ok (lines : List String) (n : String) (m : MapObj)
+    (h : (runLines lines).get? n = some m) : m.WF ∧ m.KindOk ∧ m.SentOK :=
+  (Good.runLines lines).get h
+
+/-- every stored file is well formed: what the reader recovers from it obeys the layout -/
+theorem reachable_file_wf (lines : List String) : ∀ e ∈ (runLines lines).files, e.2.WF :=
+  (reachable_wf lines).2
+
+/-- non-vacuity: a history that makes a map with pre-allocated (repeated) coverage pixels, grows
+    it by an update, makes a record map, takes a field view, writes and scales through the view,
+    writes a file, reads part of it back and degrades — every line answers `ok`, the world holds
+    four owning maps, one view and one file, and the theorems above apply to it.  (Evaluated by
+    the compiler: the kernel cannot run the string parser.) -/
+def exHistory : List String := [
+  "cfg m kind=plain dtype=i4 covord=0 spord=2 covpix=3,3",
+  "upd m pix=5,100 vals=3,4",
+  "cfg p kind=rec covord=0 spord=1 fields=i2,f8 primary=0 sentinel=7",
+  "upd p pix=5 vals=r3;2",
+  "single p field=1 r=v",
+  "upd v pix=5 val=9",
+  "sop v op=mul k=2 inplace=1",
+  "write m f=f1",
+  "read f=f1 r=m2 pixels=0,6",
+  "deg m ord=1 red=sum r=d"]
+
+#guard (exHistory.foldl (fun (wo : World × List String) l => ((step wo.1 l).1, wo.2 ++ [(step wo.1 l).2]))
+    ({}, [])).2.all (· == "ok")
+#guard (runLines exHistory).pool.map (fun e => (e.1, e.2.view.isSome, e.2.st.sp.size)) ==
+  [("d", false, 16), ("m2", false, 48), ("v", true, 0), ("p", false, 8), ("m", false, 64)]
+#guard (runLines exHistory).pool.all fun e => e.2.view.isSome || checkInv e.2.c e.2.vc e.2.st
+#guard ((runLines exHistory).get? "p").map (fun m => showVal (m.abs 5)) == some "r3;18"
+#guard ((runLines exHistory).get? "v").map (fun m => (showVal (m.abs 5), checkInv m.c m.vc m.st)) == some ("18", true)
+#guard (runLines exHistory).files.map (·.1) == ["f1"]
+
+example : (runLines exHistory).WF ∧
+    (∀ m, (runLines exHistory).get? "v" = some m → m.WF) ∧
+    (∀ e ∈ (runLines exHistory).pool, e.2.view = none → checkInv e.2.c e.2.vc e.2.st = true) :=
+  ⟨reachable_wf _, fun m h => reachable_get_wf _ _ m h, reachable_checkInv _⟩
 
 end C04
 end HS
